@@ -1,7 +1,9 @@
 (* C20: replays an event trace of the real executor on the extracted transition system.
    line:  stw <limit> <blocking> <cb> <hook> <variant> | tid:kind:a:b:c ...
           tp  <nthreads> <limit> <ovf> <hook> <variant> | ...
-   variant: 0 = code as found, 1 = with the shutdown re-check fixes, 3 = 1 + overflow threads registered (tp), 2 = try 3, 1, 0.
+   variant: 0 = code as found, 1 = with the shutdown re-check fixes, 3 = 1 + overflow threads registered (tp),
+            5 = 1 + self-shutdown guard of iwstw_shutdown releases the mutex (stw, fixes/exec-stw-self-shutdown-unlock.diff),
+            2 = try 3, 1, 0 (tp) / 5, 1, 0 (stw).
    answer: ok variant=v n=.. acc=.. enq=.. done=.. disc=.. repl=.. started=.. pending=.. uaf=b freed=b wdead=b shut=b
               [tp: regs=.. busy=.. workers=..]
            reject at=<index> ev=<token> variant=v ... [tp: regs=<model registry> ...]
@@ -70,7 +72,7 @@ let handle toks =
     let hook = hook <> "0" and variant = int_of_string variant in
     let one v =
       if kind = "stw" then begin
-        let c = stw_cfg (n p1) (p2 <> 0) (p3 <> 0) (v >= 1) in
+        let c = stw_cfg (n p1) (p2 <> 0) (p3 <> 0) (v >= 1) (v = 5) in
         let (s, bad, k) = replay (stw_step c) (stw_hidden c) (fun _ e -> e) (fun _ -> []) hook stw_init evs in
         (bad, k, view (stw_view s))
       end else begin
@@ -87,7 +89,7 @@ let handle toks =
       if bad < 0 then Printf.sprintf "ok variant=%d n=%d %s" v k vw
       else Printf.sprintf "reject at=%d ev=%s variant=%d %s" bad toka.(bad) v vw in
     if variant = 2 then begin
-      let cands = if kind = "stw" then [1; 0] else [3; 1; 0] in
+      let cands = if kind = "stw" then [5; 1; 0] else [3; 1; 0] in
       let best = ref None in
       (try List.iter (fun v ->
          let (b, _, _) as r = one v in
